@@ -63,8 +63,9 @@ def run_rows(ctx, binary, lines, tag):
             res["sweep"] = {"cases": int(m.group(1)), "accepted": int(m.group(2)), "diffs": int(m.group(3))} if m else o
             if not m or int(m.group(3)) != 0:
                 bad.append((l, o))
-        elif k == "unknown-function":
+        elif k == "unknown-function":   # a row of the regenerated table that this engine has no call for
             res["unknown"] += 1
+            bad.append((l, o))
         else:
             res["diff"] += 1
             bad.append((l, o))
@@ -82,8 +83,12 @@ def describe(line, out):
     mt = re.search(r" T=(\S*)", out)
     mn = re.search(r" N=(\S*)", out)
     T, N = (mt.group(1) if mt else "?"), (mn.group(1) if mn else "?")
+    if out.startswith("unknown-function"):
+        return "%s [%s]: row of the regenerated table without a dynamic call in harness/api_row_drv.cc (a new Node function, or a changed signature): nothing was compared" % (sig, t[4])
     if N.startswith("err@create") and T.startswith("ok"):
         return "%s [%s] throws '%s' when the node is created while the Tensor overload succeeds (%s)" % (sig, t[4], N[11:], T[:60])
+    if T.startswith("err") and N.startswith("ok") and "err@eval" in N:
+        return "%s [%s]: the Tensor overload throws '%s'; the Node API creates the node and reports the error only at evaluation (%s): it must be reported at node creation" % (sig, t[4], T[11:], N[:120])
     if T.startswith("err") and N.startswith("ok"):
         return "%s [%s]: the Tensor overload throws '%s' but the Node API accepts the call (%s)" % (sig, t[4], T[11:], N[:80])
     return "%s [%s]: Tensor API -> %s ; Node API -> %s" % (sig, t[4], T[:120], N[:120])
@@ -110,6 +115,7 @@ def model_program(ns, name, tys, variant):
     U = lambda n: "AAttr (AU %d%%N)" % n
     Fq = lambda a, b: "AAttr (AF (Qmake %d %d))" % (a, b)
     X0, X1 = "ARef 0 0", "ARef 1 0"
+    # the second operand of a function of two tensors carries other data (data_b of api_row_drv.cc = qdata2 below)
     DEV = "AAttr (ADev None)"
     SHM = "AAttr (ASh [2; 2]%N 1%N)"
     if ns == "functions":
@@ -122,7 +128,7 @@ def model_program(ns, name, tys, variant):
                 return ["qM"], _fk(ns, name, t), [Fq(2, 1), X0]
             if t == ["X", "X"]:
                 a = "qS" if variant in ("a-scalar", "both-scalar") else "qM"
-                b = "qS" if variant in ("b-scalar", "both-scalar") else "qM"
+                b = "qS2" if variant in ("b-scalar", "both-scalar") else "qM2"
                 return [a, b], _fk(ns, name, t), [X0, X1]
         if name == "pown":
             return ["qM"], _fk(ns, name, t), [X0, "AAttr (AI 2%Z)"]
@@ -139,7 +145,7 @@ def model_program(ns, name, tys, variant):
         if name == "split":
             return ["qM"], _fk(ns, name, t), [X0, U(0), U(2)]
         if name == "concat<X>" and t == ["vec<X*>", "u32"]:
-            return ["qM", "qM"], _fk(ns, name, t), ["ARefs %s" % ("[]" if variant == "empty" else "[(0, 0); (1, 0)]"), U(0)]
+            return ["qM", "qM2"], _fk(ns, name, t), ["ARefs %s" % ("[]" if variant == "empty" else "[(0, 0); (1, 0)]"), U(0)]
         if name == "reshape":
             return ["qM"], _fk(ns, name, t), [X0, "AAttr (ASh [4]%N 1%N)"]
         if name == "flip":
@@ -147,7 +153,7 @@ def model_program(ns, name, tys, variant):
         if name == "permute_dims":
             return ["qM"], _fk(ns, name, t), [X0, "AAttr (AUs [1%N; 0%N])"]
         if name == "matmul":
-            return ["qM"], _fk(ns, name, t), [X0, X0]
+            return ["qM", "qM2"], _fk(ns, name, t), [X0, X1]
         if name in ("prelu", "elu"):
             return ["qM"], _fk(ns, name, t), [X0, Fq(1, 2)]
         if name in ("max", "min", "sum", "logsumexp"):
@@ -155,11 +161,11 @@ def model_program(ns, name, tys, variant):
         if name == "broadcast":
             return ["qM"], _fk(ns, name, t), [X0, U(2), U(3)]
         if name == "softmax_cross_entropy" and t == ["X", "X", "u32"]:
-            return ["qM"], _fk(ns, name, t), [X0, X0, U(0)]
+            return ["qM", "qM2"], _fk(ns, name, t), [X0, X1, U(0)]
         if name == "softmax_cross_entropy" and t == ["X", "vec<u32>", "u32"]:
             return ["qM"], _fk(ns, name, t), [X0, "AAttr (AUs [0%N])", U(0)]
         if name == "conv2d":
-            return ["qM"], _fk(ns, name, t), [X0, X0, U(0), U(0), U(1), U(1), U(1), U(1)]
+            return ["qM", "qM2"], _fk(ns, name, t), [X0, X1, U(0), U(0), U(1), U(1), U(1), U(1)]
         if name == "max_pool2d":
             return ["qM"], _fk(ns, name, t), [X0, U(1), U(1), U(0), U(0), U(1), U(1)]
         if name == "constant_node":
@@ -174,7 +180,7 @@ def model_program(ns, name, tys, variant):
         if name == "split":
             return ["qB"], _fk(ns, name, t), [X0, U(2)]
         if name == "concat<X>" and t == ["vec<X*>"]:
-            return ["qM", "qM"], _fk(ns, name, t), ["ARefs %s" % ("[]" if variant == "empty" else "[(0, 0); (1, 0)]")]
+            return ["qM", "qM2"], _fk(ns, name, t), ["ARefs %s" % ("[]" if variant == "empty" else "[(0, 0); (1, 0)]")]
         if name == "sum":
             return ["qB"], _fk(ns, name, t), [X0]
     elif ns == "functions::random":
@@ -238,10 +244,14 @@ def model_rows(ctx, lines, outs):
     from fractions import Fraction
     res = {"ran": False}
     ctx.cov["real_instance_vs_code"] = res
+    def failed(reason):   # the comparison did not run: that is not a pass
+        res["reason"] = reason
+        ctx.violation("model-row-infra", {"kind": "model-vs-code-not-run", "reason": reason, "witness": "model-row :: <not run>"}, False,
+                      "the comparison of the real instance of the API model with the code did not run: " + reason[:600])
+
     ok, log = pv.coq_make(["Tables/RealExamples.vo"], timeout=600)
     if not ok:
-        res["reason"] = "Tables/RealExamples.vo does not build: " + log[-300:]
-        return
+        return failed("Tables/RealExamples.vo does not build: " + log[-300:])
     core = set()
     progs = []
     for i, (l, o) in enumerate(zip(lines, outs)):
@@ -259,6 +269,8 @@ def model_rows(ctx, lines, outs):
     body = ["From Coq Require Import List String Bool NArith ZArith QArith.",
             "From PV Require Import Shape.ShapeImpl Tables.ApiModel Tables.ApiTable Tables.RealSem Tables.RealExamples.",
             "Import ListNotations.", "Close Scope Q_scope.", "Open Scope string_scope.",
+            "Definition qdata2 (n : nat) : list Q := map (fun i => Qmake (Z.of_nat ((i * 3 + 1) mod 7) + 5)%Z 4) (seq 0 n).",
+            "Definition qM2 : call AQ := qin [2; 2]%N 1%N (qdata2 4).", "Definition qS2 : call AQ := qin []%N 1%N (qdata2 1).",
             'Eval vm_compute in ("CORE", core_functions).']
     body += ['Eval vm_compute in ("ROW %d", qshow %s).' % (i, p) for i, p in progs]
     open(src, "w").write("\n".join(body) + "\n")
@@ -269,8 +281,9 @@ def model_rows(ctx, lines, outs):
         core = set(x.replace("batch::", "") for x in re.findall(r'"([^"]*)"', mcore.group(1)))
     got = {int(m.group(1)): m.group(2) for m in re.finditer(r'\("ROW (\d+)",(.*?)\) : string', flat)}
     if rc != 0 or len(got) < len(progs):
-        res["reason"] = "coqc on the model programs failed / incomplete (%d of %d): %s" % (len(got), len(progs), out[-300:])
-        return
+        return failed("coqc on the model programs failed / timed out / incomplete (rc=%s, %d of %d rows): %s" % (rc, len(got), len(progs), out[-300:]))
+    if not progs:
+        return failed("no row of the table has a model program (empty or unreadable tables)")
     res.update({"ran": True, "rows": len(progs), "shape_agree": 0, "value_agree": 0, "value_rows": 0, "mismatch": []})
     for i, _ in progs:
         l, o = lines[i], outs[i]
@@ -410,8 +423,11 @@ def _run(ctx):
     bad, outs = run_rows(ctx, impl, lines, "plain")
     try:
         model_rows(ctx, lines, outs)
-    except Exception as e:   # an infrastructure failure of this auxiliary comparison is recorded, not alarmed
-        ctx.cov["real_instance_vs_code"] = {"ran": False, "reason": "%s: %s" % (type(e).__name__, str(e)[:300])}
+    except Exception as e:   # the comparison did not run: not a pass
+        reason = "%s: %s" % (type(e).__name__, str(e)[:300])
+        ctx.cov["real_instance_vs_code"] = {"ran": False, "reason": reason}
+        ctx.violation("model-row-infra", {"kind": "model-vs-code-not-run", "reason": reason, "witness": "model-row :: <not run>"}, False,
+                      "the comparison of the real instance of the API model with the code raised " + reason)
     variants = ["plain"]
     if not quick:
         for v in ("cache", "asan"):
@@ -438,7 +454,7 @@ def _run(ctx):
         reported.add(l)
         txt = why.get(l, "") + describe(l, o)
         ctx.violation("api-row", {"kind": "two-api-call", "case": l, "output": o, "witness": "api-row :: " + l, "text": txt,
-                                  "theorem_and_row": why.get(l), "driver": impl}, True, txt)
+                                  "theorem_and_row": why.get(l), "driver": impl}, not o.startswith("unknown-function"), txt)
     ctx.cov["evaluations"] = sum(r["cases"] for r in ctx.cov["two_api_rows"].values()) + sum(
         (r.get("sweep") or {}).get("cases", 0) for r in ctx.cov["two_api_rows"].values() if isinstance(r.get("sweep"), dict))
     ctx.cov["traces_validated_against_impl"] = ctx.cov["evaluations"]
@@ -447,10 +463,17 @@ def _run(ctx):
     ctx.cov["rule"] = ("proof: finite theorems over the regenerated tables (every operator class, every return path of every Node function) + induction over programs in the abstract model; "
                        "cases = every Node function x path variant (scalar first / scalar second / both / neither operand, empty / non-empty list) called through both APIs with small valid arguments, "
                        "plus the exhaustive sweep of split, batch::split, softmax_cross_entropy (dense, sparse) over 33 shapes (11 dim lists up to depth 3 x batch 1..3) x 8 axes incl. 7, 8, 9, 2^32-1 x n in {0..4, 2^31, 2^32-1} (batch::split also 6; any exception other than primitiv::Error counts as a failure) / id lists incl. empty and out of range / all shape pairs; "
-                       "compared: accepted vs Error, Node::shape() before evaluation, values; non-trivial = calls both APIs accept; "
+                       "functions of two tensors get two DIFFERENT operands (swapped operands change the result of every non-commutative one); "
+                       "compared: accepted vs Error (a Node that is created and fails only at evaluation disagrees with a Tensor-API error, also in the sweep), Node::shape() before evaluation, values (printed with 9 significant digits); non-trivial = calls both APIs accept; "
+                       "a table row without a dynamic call (unknown-function) is a violation; "
                        "the REAL INSTANCE of the model (Tables/RealSem.v at R := Q) is run on the same default call of every row it has a program for and compared with what the code did: accepted / rejected (Tensor API, node creation), result shapes, static Node shapes, and the values for the core family (coverage key real_instance_vs_code)")
     ctx.cov["input_distribution"] = {"row_calls": len(lines) - 1, "sweep": 1, "build_variants": variants}
-    ctx.add_samples([lines[4], lines[9], lines[-2], "sweep"] + [o[:160] for o in outs[9:10]])
+    if len(lines) < 11:   # (the tables are empty or unreadable: the translator / the theorems have already said so)
+        ctx.violation("api-row", {"kind": "two-api-call", "case": "<tables>", "witness": "api-row :: <tables>",
+                                  "text": "the regenerated table lists %d Node function calls; at least 10 expected" % (len(lines) - 1)}, False,
+                      "the regenerated table (coq/Gen/OpTables.v, %s) lists only %d Node function calls: no row-by-row comparison of the two APIs is possible (translator: %s)"
+                      % (pv.REPO, len(lines) - 1, tr_err or "ok"))
+    ctx.add_samples([l for l in (lines[4:5] + lines[9:10] + lines[-2:-1])] + ["sweep"] + [o[:160] for o in outs[9:10]])
 
     # random programs through both APIs (another engine's harness), when present
     pc = {"ran": False}
@@ -482,10 +505,10 @@ def _run(ctx):
                 pc["derived_seed"] = str(r3)[:300]
         elif not quick:
             pc["cache_variant"] = "progcheck.run_mode has no `variant` parameter; cache build covered by the row replay + sweep only"
-    except ImportError as e:
-        pc = {"ran": False, "reason": "engines/progcheck.py not present (%s)" % e}
-    except Exception as e:   # a broken foreign harness must not hide this engine's result
+    except Exception as e:   # ImportError, BuildError of prog_drv, ...: the oracle did not run, which is not a pass
         pc = {"ran": False, "reason": "engines.progcheck failed: %s: %s" % (type(e).__name__, str(e)[:300])}
+        ctx.violation("prog-api-infra", {"kind": "prog-oracle-not-run", "reason": pc["reason"], "witness": "prog api :: <not run>"}, False,
+                      "the two-API program oracle (engines/progcheck.py, harness/prog_drv.cc) did not run: " + pc["reason"])
     ctx.cov["progcheck"] = pc
 
     if not quick and res["ok"]:   # independent re-check of the compiled theorems
